@@ -252,6 +252,8 @@ class Parser(AttrParser):
                     [(original_definition, None)],
                 )
             self.forward_block_references.pop(name)
+            # Record the definition, so that a second one is reported as a re-declaration
+            self.blocks[name] = (block, name_token.span)
 
         # Don't set name_hint for blocks that match the default pattern
         # Block ids that are not valid name hints (e.g. `^0`) are legal: no hint then
